@@ -319,6 +319,9 @@ class Interp:
                 return Lit(eq if op == "==" else not eq)
             raise Cannot("char class compared with non-literal")
         ls, rs = show(l), show(r)
+        if ls == rs and isinstance(l, (Sym, Lit)) and isinstance(r, (Sym, Lit)):
+            self.effects.append(("same", ls, [], None))
+            return Lit(op in ("==", "<=", ">="))        # a value compared with itself
         use_ord = op in ("<", "<=", ">", ">=") or (ls, rs) in self.ord_pairs or (rs, ls) in self.ord_pairs \
             or _is_orderable(lty)
         if use_ord:
